@@ -233,7 +233,10 @@ def rule_wildcfg(E, R):
                         x.node["sp"])
         R.check(limit_ok == ("Le", "count,limit", True), "R11-validate", WC + "::new", "more stars than the limit is rejected",
                 "found %s" % (limit_ok,), x.node["sp"])
-        ds = any(a_.kind == "call" and not pol and norm(sem.peel(a_.node).get("callee", "")) == "rhs_types::wildcard::has_double_star"
+        # (the test is the private helper's verdict: stated as the helper call, or - when the helper is a single expression that
+        # the path condition expands - as that expression evaluated inside the helper)
+        ds = any(a_.kind == "call" and not pol and (norm(sem.peel(a_.node).get("callee", "")) == "rhs_types::wildcard::has_double_star" or
+                                                    "rhs_types::wildcard::has_double_star" in a_.frame.chain())
                  for a_, pol in sem.literals(x.pc)[0])
         R.check(ds, "R11-validate", WC + "::new", "`**` is rejected", where=x.node["sp"])
         counted = [y for y in Sw.sites() if y.node.get("k") == "MethodCall" and y.node["m"] == "metasymbol_count"]
